@@ -32,7 +32,8 @@ class Soft:
         self.state = state
 
 
-def explore(g, init, at=None, edge=None, start=None, max_states=400000):
+def explore(g, init, at=None, edge=None, start=None, max_states=400000,
+            base_exceptions=False):
     """Breadth-first exploration of (node, abstract state) pairs.
 
     at(node, state)          -> new state | Violation | PRUNE   (node effect)
@@ -75,6 +76,11 @@ def explore(g, init, at=None, edge=None, start=None, max_states=400000):
         if st2 is PRUNE:
             continue
         for tgt, lab in node.succ:
+            if lab == 'eb':
+                # taken only by BaseExceptions that are not Exceptions
+                if not base_exceptions:
+                    continue
+                lab = 'e'
             st3 = st2
             if edge is not None:
                 st3 = edge(node, st2, lab, g.nodes[tgt])
@@ -328,7 +334,7 @@ def raising_node(g, path):
             if t == nxt:
                 lab = l
                 break
-        if lab == 'e' and n.kind in RAISING_KINDS:
+        if lab in ('e', 'eb') and n.kind in RAISING_KINDS:
             return n
     return g.nodes[path[-1]]
 
